@@ -98,6 +98,20 @@ ROUND4 = {
     "C20": " use_keyspace_result never returns Ok once a connection answered with an error other than a broken connection, and only after at least one Ok.",
 }
 
+# clauses added by the fifth seed round
+ROUND5 = {
+    "C01": " A zero-length vector element decodes as an empty value (read_n_bytes is never asked for 0 bytes).",
+    "C02": " The reader awaits read_response_frame in place: a frame read, once started, is never dropped half-way by a timeout / select.",
+    "C03": " Every handle made from a prepared statement (clone, cache handle, configured handle) carries its partitioner.",
+    "C08": " Response body extensions are read in wire order (tracing id, warnings, custom payload), each under its own header flag.",
+    "C13": " The error reported when every execution failed ignorably is the last one (each ignorable result overwrites the slot).",
+    "C15": " Maintenance is told about every node of the old topology that is missing from the new one.",
+    "C16": " The ordered UDT serializer consumes a database field only after its name matched.",
+    "C18": " A batch the driver derives from the caller's batch keeps the caller's configuration (explicit timestamp included).",
+    "C19": " Every merge_* function stores or hands on what it was given on every path.",
+    "C20": " A keyspace name passes local validation only if it is 1..=48 characters of [A-Za-z0-9_].",
+}
+
 NOT_APPLICABLE = {
     "C04": "equality of computed replica lists over all rings/strategies: no structural clause that is a meaningful necessary condition; needs evaluation (different technique family)",
     "C11": "modular / fixed-point arithmetic identities over integer domains (shard_of, port congruences, iteration counts): needs evaluation or an SMT solver, a different family",
@@ -118,7 +132,7 @@ def main():
                 "evidence_file": "/verif/evidence/%s.json" % pid,
                 "replay_cmd_template": "./check explain {path}",
                 "engine": "scyllalint",
-                "level_claimed": {"category": "other", "text": text + ROUND4.get(pid, ""), "design_ref": ref},
+                "level_claimed": {"category": "other", "text": text + ROUND4.get(pid, "") + ROUND5.get(pid, ""), "design_ref": ref},
                 "level_note": note,
                 "technique": tech,
             })
